@@ -13,6 +13,49 @@ import numpy as np
 COUNTS = collections.Counter()
 EVENTS = []          # dicts: monitor, detail
 _ATTACHED = set()
+UNAVAILABLE = {}     # monitor name -> why it could not be attached
+
+
+def _unavailable(name, err):
+    '''A monitor that cannot be attached to this tree (function renamed,
+    moved, other parameter names) is reported and left out: it must never
+    turn a refactoring into an alarm.  The end-to-end oracles still decide.'''
+    UNAVAILABLE[name] = repr(err)
+    COUNTS[f'unavailable.{name}'] += 1
+
+
+def _safe(name, cond):
+    '''A contract condition whose own failure (not a violation it records)
+    never reaches the monitored code.'''
+    @functools.wraps(cond)
+    def inner(*args, **kwargs):
+        try:
+            return cond(*args, **kwargs)
+        except Exception:  # pylint: disable=broad-except
+            COUNTS[f'monitor-error.{name}'] += 1
+            return True
+    return inner
+
+
+def _attach_contract(name, module_path, attr, post):
+    '''icontract postcondition `post` on module_path.attr, rebinding every
+    by-name import of the function.'''
+    import importlib
+    import inspect
+    import icontract
+    try:
+        module = importlib.import_module(module_path)
+        func = getattr(module, attr)
+        params = set(inspect.signature(func).parameters)
+        need = set(inspect.signature(post).parameters) - {'result'}
+        if not need <= params:
+            raise TypeError(f'{attr} has parameters {sorted(params)}, the '
+                            f'contract needs {sorted(need)}')
+        wrapped = icontract.ensure(_safe(name, post),
+                                   error=AssertionError)(func)
+        COUNTS[f'bind.{name}'] += _replace_everywhere(func, wrapped)
+    except Exception as err:  # pylint: disable=broad-except
+        _unavailable(name, err)
 
 
 def drain():
@@ -56,15 +99,33 @@ def attach_dedup():
     if 'dedup' in _ATTACHED:
         return
     _ATTACHED.add('dedup')
-    from t4_geom_convert.Kernel.Surface import Duplicates
     from . import t4eval
-    original = Duplicates.remove_duplicate_surfaces
+    try:
+        from t4_geom_convert.Kernel.Surface import Duplicates
+        original = Duplicates.remove_duplicate_surfaces
+    except Exception as err:  # pylint: disable=broad-except
+        _unavailable('dedup', err)
+        return
     rng = np.random.default_rng(12345)
 
     @functools.wraps(original)
-    def wrapper(surfs):
-        before = dict(surfs.items())
-        new_surfs, renumbering = original(surfs)
+    def wrapper(*args, **kwargs):
+        try:
+            before = dict(args[0].items())
+        except Exception:  # pylint: disable=broad-except
+            before = None
+        result = original(*args, **kwargs)
+        if before is None:
+            COUNTS['monitor-error.dedup'] += 1
+            return result
+        try:
+            new_surfs, renumbering = result
+            judge_dedup(before, renumbering)
+        except Exception:  # pylint: disable=broad-except
+            COUNTS['monitor-error.dedup'] += 1
+        return result
+
+    def judge_dedup(before, renumbering):
         COUNTS['dedup.calls'] += 1
         for key, target in renumbering.items():
             if key == target:
@@ -82,8 +143,8 @@ def attach_dedup():
                                    f'surface {key} ({before[key]}) merged '
                                    f'into {target} ({before[target]}) but '
                                    'they evaluate differently'})
-            except Exception as err:  # pylint: disable=broad-except
-                EVENTS.append({'monitor': 'dedup-harness', 'detail': repr(err)})
+            except Exception:  # pylint: disable=broad-except
+                COUNTS['monitor-error.dedup'] += 1
         # renumbering must be total and idempotent
         for key in before:
             if key not in renumbering:
@@ -92,7 +153,6 @@ def attach_dedup():
             elif renumbering[renumbering[key]] != renumbering[key]:
                 EVENTS.append({'monitor': 'dedup', 'detail':
                                f'renumbering of {key} is not idempotent'})
-        return new_surfs, renumbering
     COUNTS['dedup.bindings'] += _replace_everywhere(original, wrapper)
 
 
@@ -116,13 +176,7 @@ def attach_contracts():
     if 'contracts' in _ATTACHED:
         return
     _ATTACHED.add('contracts')
-    import icontract
     from . import matref, model
-    from t4_geom_convert.Kernel.Transformation import Transformation as TR
-    from t4_geom_convert.Kernel.Volume import Lattice as LAT
-    from t4_geom_convert.Kernel import Utils, VectUtils
-    from t4_geom_convert.Kernel.Composition import ConstructCompositionT4 as CC
-    from MIP.mip import datacard
 
     # -- normalize_transform: 12 numbers, proper rotation, entries kept ----
     def nt_post(transf, result):
@@ -159,15 +213,27 @@ def attach_contracts():
                         abs(sum(v * v for v in vec) - 1.0) > 1e-9:
                     return False
         return True
-    wrapped = icontract.ensure(nt_post, error=AssertionError)(TR.normalize_transform)
-    COUNTS['bind.normalize_transform'] += _replace_everywhere(
-        TR.normalize_transform, wrapped)
+    _attach_contract('normalize_transform',
+                     't4_geom_convert.Kernel.Transformation.Transformation',
+                     'normalize_transform', nt_post)
 
     # -- lattice index order ------------------------------------------------
-    orig_indices = LAT.LatticeBounds.indices
+    try:
+        from t4_geom_convert.Kernel.Volume import Lattice as LAT
+        orig_indices = LAT.LatticeBounds.indices
+    except Exception as err:  # pylint: disable=broad-except
+        _unavailable('LatticeBounds.indices', err)
+        orig_indices = None
 
-    def indices(self):
-        out = list(orig_indices(self))
+    def indices(self, *args, **kwargs):
+        out = list(orig_indices(self, *args, **kwargs))
+        try:
+            judge_indices(self, out)
+        except Exception:  # pylint: disable=broad-except
+            COUNTS['monitor-error.indices'] += 1
+        return iter(out)
+
+    def judge_indices(self, out):
         COUNTS['contract.indices'] += 1
         bounds = self.bounds
         expect = []
@@ -192,8 +258,8 @@ def attach_contracts():
             if out != expect:
                 _record('LatticeBounds.indices', f'{bounds}: {out[:6]}... is '
                         'not first-index-fastest over the declared ranges')
-        return iter(out)
-    LAT.LatticeBounds.indices = indices
+    if orig_indices is not None:
+        LAT.LatticeBounds.indices = indices
 
     # -- expand_data_card equals my own expansion ---------------------------
     def edc_post(tokens, expected, dtype, result):
@@ -215,10 +281,8 @@ def attach_contracts():
         if not ok:
             _record('expand_data_card', f'{toks} -> {vals}, expected {mine}')
         return True
-    wrapped = icontract.ensure(edc_post, error=AssertionError)(
-        datacard.expand_data_card)
-    COUNTS['bind.expand_data_card'] += _replace_everywhere(
-        datacard.expand_data_card, wrapped)
+    _attach_contract('expand_data_card', 'MIP.mip.datacard',
+                     'expand_data_card', edc_post)
 
     # -- normalize_float keeps the value and is idempotent ------------------
     def nf_post(number, result):
@@ -237,10 +301,8 @@ def attach_contracts():
             _record('normalize_float', f'{number!r} -> {result!r} changes '
                     f'the value ({want!r} -> {got!r})')
         return True
-    wrapped = icontract.ensure(nf_post, error=AssertionError)(
-        Utils.normalize_float)
-    COUNTS['bind.normalize_float'] += _replace_everywhere(
-        Utils.normalize_float, wrapped)
+    _attach_contract('normalize_float', 't4_geom_convert.Kernel.Utils',
+                     'normalize_float', nf_post)
 
     # -- rescale_fractions: proportional, sums to the concentration ---------
     def rf_post(fractions, concentration, result):
@@ -251,10 +313,9 @@ def attach_contracts():
         if [n for n, _ in result] != [n for n, _ in fractions]:
             _record('rescale_fractions', 'nuclide order changed')
         return True
-    wrapped = icontract.ensure(rf_post, error=AssertionError)(
-        CC.rescale_fractions)
-    COUNTS['bind.rescale_fractions'] += _replace_everywhere(
-        CC.rescale_fractions, wrapped)
+    _attach_contract('rescale_fractions',
+                     't4_geom_convert.Kernel.Composition.ConstructCompositionT4',
+                     'rescale_fractions', rf_post)
 
     # -- planeParamsFromPoints: through the points, unit normal, rule -------
     def pp_post(pt1, pt2, pt3, result):
@@ -274,10 +335,9 @@ def attach_contracts():
             # so only record, tagged, and let the property decide
             COUNTS['contract.planeParamsFromPoints.orientation_differs'] += 1
         return True
-    wrapped = icontract.ensure(pp_post, error=AssertionError)(
-        VectUtils.planeParamsFromPoints)
-    COUNTS['bind.planeParamsFromPoints'] += _replace_everywhere(
-        VectUtils.planeParamsFromPoints, wrapped)
+    _attach_contract('planeParamsFromPoints',
+                     't4_geom_convert.Kernel.VectUtils',
+                     'planeParamsFromPoints', pp_post)
 
 
 # --------------------------------------------------------------------------
@@ -287,13 +347,36 @@ def attach_cache_events():
     if 'cache' in _ATTACHED:
         return
     _ATTACHED.add('cache')
-    from t4_geom_convert.Kernel.Volume.CellConversion import CellConversion
-    orig = CellConversion.cell_transform
-    orig_ref = CellConversion.convert_cellref
+    import inspect
+    try:
+        from t4_geom_convert.Kernel.Volume.CellConversion import CellConversion
+        orig = CellConversion.cell_transform
+        orig_ref = CellConversion.convert_cellref
+        sig = inspect.signature(orig)
+        sig_ref = inspect.signature(orig_ref)
+        if not {'cell_key', 'transform'} <= set(sig.parameters) or \
+                'cell' not in sig_ref.parameters:
+            raise TypeError('cell_transform/convert_cellref have other '
+                            'parameters in this tree')
+    except Exception as err:  # pylint: disable=broad-except
+        _unavailable('cache-events', err)
+        return
 
-    def cell_transform(self, cell_key, transform, cache=True):
-        before = self.new_cell_key
-        new_key = orig(self, cell_key, transform, cache=cache)
+    def cell_transform(self, *args, **kwargs):
+        before = getattr(self, 'new_cell_key', None)
+        new_key = orig(self, *args, **kwargs)
+        try:
+            bound = sig.bind(self, *args, **kwargs)
+            bound.apply_defaults()
+            judge_transform(self, before, new_key,
+                            bound.arguments['cell_key'],
+                            bound.arguments['transform'],
+                            bound.arguments.get('cache', True))
+        except Exception:  # pylint: disable=broad-except
+            COUNTS['monitor-error.cell_transform'] += 1
+        return new_key
+
+    def judge_transform(self, before, new_key, cell_key, transform, cache):
         COUNTS['cache.cell_transform_calls'] += 1
         book = self.__dict__.setdefault('_vt_book', {})
         made = self.__dict__.setdefault('_vt_made', {})
@@ -316,14 +399,17 @@ def attach_cache_events():
                 made[new_key] != ident:
             _record('cell_transform', f'{ident} answered with the cell made '
                     f'for {made[new_key]}')
-        return new_key
 
-    def convert_cellref(self, cell, matching, union_ids):
-        res = orig_ref(self, cell, matching, union_ids)
-        COUNTS['cache.convert_cellref_calls'] += 1
-        if res is not None and res not in self.dic_vol_t4:
-            _record('convert_cellref', f'cell {cell} -> {res} which is not a '
-                    'volume')
+    def convert_cellref(self, *args, **kwargs):
+        res = orig_ref(self, *args, **kwargs)
+        try:
+            COUNTS['cache.convert_cellref_calls'] += 1
+            cell = sig_ref.bind(self, *args, **kwargs).arguments['cell']
+            if res is not None and res not in self.dic_vol_t4:
+                _record('convert_cellref', f'cell {cell} -> {res} which is '
+                        'not a volume')
+        except Exception:  # pylint: disable=broad-except
+            COUNTS['monitor-error.convert_cellref'] += 1
         return res
     CellConversion.cell_transform = cell_transform
     CellConversion.convert_cellref = convert_cellref
